@@ -221,14 +221,20 @@ class FrameQueueFrag(FrameQueue):
                 self._frags.unpack(frame.pack())  # make copy not reference
                 return True
             if (
-                self._frags.header.from_node is not None  # if not just initialized
+                # a message is being reassembled (not just initialized or completed)
+                self._frags.header.message_type in (MSG_FRAG_FIRST, MSG_FRAG_MORE)
+                and frame.header.from_node == self._frags.header.from_node
                 and frame.header.to_node == self._frags.header.to_node
                 and frame.header.frame_id == self._frags.header.frame_id
             ):
-                if (
-                    self._frags.header.reserved - 1 != frame.header.reserved
-                    and frame.header.message_type != MSG_FRAG_LAST
-                ):
+                if frame.header.message_type == MSG_FRAG_LAST:
+                    # the last fragment follows the fragment numbered 2
+                    non_sequential = self._frags.header.reserved > 2
+                else:
+                    non_sequential = (
+                        self._frags.header.reserved - 1 != frame.header.reserved
+                    )
+                if non_sequential:
                     # print("dropping non sequential fragment")
                     return False
                 self._frags.header.unpack(frame.header.pack())
